@@ -152,6 +152,7 @@ pub fn run(rep: &mut Rep) {
             add_counters(rep, &s.w);
         }
     }
+    super::c09::wide(rep, 800_000_000);
     // random longer sequences with ids across the 16-bit range, interleaved with client operations
     let walks = if rep.quick() { 300 } else { 20000 };
     for widx in 0..walks {
